@@ -197,6 +197,28 @@ func checkC15(c *Ctx) {
 			}
 		}
 	}
+	// the zero value of MapMemory (declared, never written) reads like any empty one; its Clone is an
+	// independent copy like any other: it can be written, and writing it leaves the original alone
+	{
+		var zero z80.MapMemory
+		var cl z80.MapMemory
+		var g0, g1, g2 uint8
+		p := guard(func() {
+			g0 = zero.Get(0x1234)
+			cl = zero.Clone()
+			cl.Set(0x1234, 0x55)
+			g1 = cl.Get(0x1234)
+			g2 = zero.Get(0x1234)
+			zero.Clear()
+		})
+		n++
+		nt++
+		if p != nil {
+			fail("MapMemory-zero", 0, c15Op{"MapMemory", 0, []string{"var m MapMemory", "m.Get(1234)", "c := m.Clone()", "c.Set(1234,55)", "c.Get(1234)", "m.Get(1234)", "m.Clear()"}}, fmt.Sprintf("zero-value MapMemory: Get; Clone; clone.Set; clone.Get; Get; Clear panicked: %v", p))
+		} else if g0 != 0xC7 || g1 != 0x55 || g2 != 0xC7 {
+			fail("MapMemory-zero", 0, c15Op{"MapMemory", 0, []string{"var m MapMemory", "c := m.Clone()", "c.Set(1234,55)"}}, fmt.Sprintf("zero-value MapMemory: Get = %02X (want C7); after Clone and clone.Set(1234,55): clone.Get = %02X (want 55), original Get = %02X (want C7)", g0, g1, g2))
+		}
+	}
 	// MapMemory.Put: blocks anywhere incl. wrapping past 0xFFFF, long blocks
 	for _, start := range []int{0, 1, 0x7FFF, 0xFFFD, 0xFFFE, 0xFFFF} {
 		for _, bl := range []int{0, 1, 2, 3, 4, 256, 65535, 65536} {
@@ -296,7 +318,7 @@ func checkC15(c *Ctx) {
 	c.Transitions = int64(tr1 + tr2)
 	c.Traces = int64(tr1 + tr2)
 	c.Exhaustive = true
-	c.Rule = "(a) sweeps: DumbMemory with lengths {0,1,2,255,256,257,32768,65535,65536} x every one of the 65536 addresses, DumbIO with lengths {0,1,128,255,256,257} x every port, MapMemory x every address: fresh read = default, write-then-read, neighbours untouched, out-of-range read 0 / write ignored, no panic; DumbMemory.Put with data that is a window of the same memory, every overlap of source and destination of 1..8 bytes at both ends of the slice. (b) explicit-state BFS to closure over {Get, Set, Put (in-range blocks for DumbMemory, wrapping blocks for MapMemory), Clone + mutate clone / mutate original, Clear, Equal(equal clone / differing clone / value stored equal to the default / non-MapMemory), In, Out} with addresses {0,1,2,len-1,len,FFFE,FFFF} and values {00,C7,FF}; every transition calls the real method and the map model in lock-step and compares all observable addresses; canonical state key = stored contents (key set and values). Non-trivial = in-range writes and all BFS transitions (counted)."
+	c.Rule = "(a) sweeps: DumbMemory with lengths {0,1,2,255,256,257,32768,65535,65536} x every one of the 65536 addresses, DumbIO with lengths {0,1,128,255,256,257} x every port, MapMemory x every address: fresh read = default, write-then-read, neighbours untouched, out-of-range read 0 / write ignored, no panic; DumbMemory.Put with data that is a window of the same memory, every overlap of source and destination of 1..8 bytes at both ends of the slice; the zero-value MapMemory (Get, Clone, write the clone, Clear). (b) explicit-state BFS to closure over {Get, Set, Put (in-range blocks for DumbMemory, wrapping blocks for MapMemory), Clone + mutate clone / mutate original, Clear, Equal(equal clone / differing clone / value stored equal to the default / non-MapMemory), In, Out} with addresses {0,1,2,len-1,len,FFFE,FFFF} and values {00,C7,FF}; every transition calls the real method and the map model in lock-step and compares all observable addresses; canonical state key = stored contents (key set and values). Non-trivial = in-range writes and all BFS transitions (counted)."
 	c.Bound = "complete sweeps; BFS to closure"
 	c.Set("bfs_states_mapmemory", st1)
 	c.Set("bfs_transitions_mapmemory", tr1)
